@@ -23,17 +23,33 @@ Definition ser_world (w : world FN) : tree :=
   Nd [ser_list (fun p => Nd [L (fst p); ser_tensor (snd p)]) (params FN w);
       ser_option (ser_list ser_acc) (upd FN w)].
 
-(* per operation: [[0; output] | [1; error code]; state after] *)
-Fixpoint trace (w : world FN) (ops : list (op FN)) : list tree :=
+(* Compact per-operation record (printing large trees dominates the cost of the check):
+   [[0; output] | [1; error code]; parameters (only after the operations that can assign them, else []);
+    per accumulator (name, number of pending pos parts, of neg parts, cache flags)].
+   The complete final state (all pending parts) is serialised once at the end. *)
+Definition assigns_params (o : op FN) : bool :=
+  match o with
+  | OpUpdate _ _ | OpUpdateSome _ _ _ | OpApply _ _ | OpSetParam _ _ _ => true
+  | _ => false
+  end.
+Definition ser_params (w : world FN) : tree :=
+  ser_list (fun p => Nd [L (fst p); ser_tensor (snd p)]) (params FN w).
+Definition ser_acc_small (na : Z * acc FN) : tree :=
+  let a := snd na in
+  Nd [L (fst na); ser_nat (length (apos FN a)); ser_nat (length (aneg FN a));
+      ser_cache (cpos FN a); ser_cache (cneg FN a)].
+Fixpoint trace (w : world FN) (ops : list (op FN)) : list tree * world FN :=
   match ops with
-  | [] => []
+  | [] => ([], w)
   | o :: tl =>
       let (w', r) := step FN w o in
-      Nd [match r with Ok v => Nd [L 0%Z; ser_out v] | Err e => Nd [L 1%Z; ser_err e] end; ser_world w']
-      :: trace w' tl
+      let (t, wf) := trace w' tl in
+      (Nd [match r with Ok v => Nd [L 0%Z; ser_out v] | Err e => Nd [L 1%Z; ser_err e] end;
+           if assigns_params o then ser_params w' else Nd [];
+           ser_option (ser_list ser_acc_small) (upd FN w')] :: t, wf)
   end.
 Definition run_case (ps : list (Z * tensor FN)) (ops : list (op FN)) : tree :=
-  Nd (trace (mkWorld FN ps None) ops).
+  let (t, wf) := trace (mkWorld FN ps None) ops in Nd [Nd t; ser_world wf].
 
 (* short names used by the generated case files *)
 Definition rsum := red_sum FN.
